@@ -15,16 +15,19 @@ def judge(rep, name, spec, cfg, trace_file, n_expected, sig_of=None, workers=2, 
     if res.distinct != n_expected + 65:   # + root + 64 fan-out blocks
         raise MachineryError("%s: judge visited %d states, expected %d records" % (name, res.distinct, n_expected))
     rejects = tlaval.find_printed(res.stdout, "REJECT")
-    seen = set()
+    seen = {}
     for r in rejects:
-        i, clauses = r[0], r[1]
-        if i in seen:
-            continue
-        seen.add(i)
-        if len(seen) > 30:
-            rep._vcount += 1        # counted, not individually written out
-            continue
-        rec = cases.read_line(trace_file, i)
+        seen.setdefault(r[0], r[1])
+    recs = {}
+    if seen:
+        import json
+        with open(trace_file) as f:
+            for k, line in enumerate(f, 1):
+                if k in seen:
+                    recs[k] = json.loads(line)
+    for i in sorted(seen):
+        clauses = seen[i]
+        rec = recs.get(i)
         cl = sorted(str(c) for c in clauses) if isinstance(clauses, (set, frozenset, tuple, list)) else [str(clauses)]
         sig = sig_of(rec, cl) if sig_of else "%s:%s" % (name, "+".join(cl))
         rep.violation(sig, "recorded execution rejected by %s, failing clause(s) %s: %s" % (spec, cl, _short(rec)),
